@@ -85,3 +85,9 @@ Theorem C11_kernels_generated : forall x a unlocked bank,
   K_AccountSummary_WithdrawableBalance (as_of x) bank = Z.min (sub_available x) bank.
 Proof. intros. repeat split; first [apply gen_Spend|apply gen_Unspend|apply gen_AddLoss|apply gen_Withdraw|apply gen_WithdrawableUnlockedBalance]. Qed.
 Print Assumptions C11_kernels_generated.
+
+(* the amount a create / top-up message locks and the refusal of an unlock time before the block time ARE the keeper's sumLockedBalance
+   (loop with an early error return), generated from x/subaccount/keeper/subaccount.go on every run *)
+Theorem C11_lock_sum_generated : forall now ls, K__sumLockedBalance now (map glb_of ls) = sum_locks now ls.
+Proof. exact gen_sumLockedBalance. Qed.
+Print Assumptions C11_lock_sum_generated.
